@@ -111,21 +111,36 @@ Section Sim.
 Variable c : cmd.
 Hypothesis Hconv : conv c = true.
 
-Lemma conv_app : assert_app c = true.
-Proof. unfold conv in Hconv. apply andb_prop in Hconv. destruct Hconv as [H _]. apply andb_prop in H. apply H. Qed.
-Lemma conv_sp : is_set s_sub_precedence c = false.
+Lemma conv_parts : assert_app c = true /\ is_set s_sub_precedence c = false /\ forallb conv_arg (c_args c) = true
+  /\ is_set s_allow_missing_pos c = false /\ low_index_multiple c = false.
 Proof.
-  unfold conv in Hconv. apply andb_prop in Hconv. destruct Hconv as [H _]. apply andb_prop in H. destruct H as [_ H].
-  destruct (is_set s_sub_precedence c); [discriminate|reflexivity].
+  unfold conv in Hconv.
+  apply andb_prop in Hconv. destruct Hconv as [H H5]. apply andb_prop in H. destruct H as [H H4].
+  apply andb_prop in H. destruct H as [H H3]. apply andb_prop in H. destruct H as [H1 H2].
+  split; [exact H1|]. split; [destruct (is_set s_sub_precedence c); [discriminate|reflexivity]|].
+  split; [exact H3|]. split; [destruct (is_set s_allow_missing_pos c); [discriminate|reflexivity]|].
+  destruct (low_index_multiple c); [discriminate|reflexivity].
 Qed.
+Lemma conv_app : assert_app c = true.
+Proof. apply conv_parts. Qed.
+Lemma conv_sp : is_set s_sub_precedence c = false.
+Proof. apply conv_parts. Qed.
 Lemma conv_args a : In a (c_args c) ->
   a_hyphen a = false /\ a_negnum a = false /\ a_req_eq a = false /\ a_term a = None.
 Proof.
-  intros Ha. unfold conv in Hconv. apply andb_prop in Hconv. destruct Hconv as [_ H].
+  intros Ha. destruct conv_parts as [_ [_ [H _]]].
   rewrite forallb_forall in H. specialize (H a Ha). unfold conv_arg in H.
+  apply andb_prop in H. destruct H as [H _]. apply andb_prop in H. destruct H as [H _].
   apply andb_prop in H. destruct H as [H H4]. apply andb_prop in H. destruct H as [H H3]. apply andb_prop in H. destruct H as [H1 H2].
   destruct (a_hyphen a); [discriminate|]. destruct (a_negnum a); [discriminate|]. destruct (a_req_eq a); [discriminate|].
   destruct (a_term a); [discriminate|]. repeat split.
+Qed.
+Lemma conv_args_pos a : In a (c_args c) -> a_last a = false /\ a_tva a = false.
+Proof.
+  intros Ha. destruct conv_parts as [_ [_ [H _]]].
+  rewrite forallb_forall in H. specialize (H a Ha). unfold conv_arg in H.
+  apply andb_prop in H. destruct H as [H H6]. apply andb_prop in H. destruct H as [_ H5].
+  destruct (a_last a); [discriminate|]. destruct (a_tva a); [discriminate|]. split; reflexivity.
 Qed.
 
 (** ** lookups return arguments of the command *)
@@ -559,7 +574,7 @@ Qed.
 
 Lemma tail_step_values t st (rest : list bytes) pos : wf_tail c t = true ->
   (do x <- tail_res t st; after_flag_k (tail_vals t ++ rest) pos x) =
-  (do st1 <- tail_step c t st; parse_loop c rest (mkL (item_pst c (ItCluster [] t)) pos true false) st1).
+  (do st1 <- tail_step c t st; parse_loop c rest (mkL (item_pst c pos (ItCluster [] t)) pos true false) st1).
 Proof.
   intros Hw. destruct t as [|o v|o v|o vs]; cbn [tail_res tail_step tail_vals item_pst wf_tail app] in *.
   - reflexivity.
@@ -580,7 +595,7 @@ Lemma loop_cluster fl t (rest : list bytes) pst pos vaf st :
   forallb cl_flag fl = true -> wf_tail c t = true ->
   (is_nil fl && match t with TNone => true | _ => false end) = false ->
   parse_loop c (render_item (ItCluster fl t) ++ rest) (mkL pst pos vaf false) st =
-  (do st1 <- apply_item c (ItCluster fl t) st; parse_loop c rest (mkL (item_pst c (ItCluster fl t)) pos true false) st1).
+  (do st1 <- apply_item c pos (ItCluster fl t) st; parse_loop c rest (mkL (item_pst c pos (ItCluster fl t)) pos true false) st1).
 Proof.
   intros Hp Hskip Hn Hfl Hw Hne. rewrite render_cluster. cbn [app].
   destruct (cluster_head fl t Hfl Hw Hne) as [ch [r [Er Hd]]].
@@ -589,6 +604,165 @@ Proof.
                            (psa_cluster fl t pst pos vaf st Hp Hskip Hfl Hw Hne) (cluster_done fl t st))|].
   cbn [apply_item]. destruct (flags_step c fl st) as [st'|e s|n]; cbn [rbind]; try reflexivity.
   rewrite (tail_step_values t st' rest pos Hw). destruct t; reflexivity.
+Qed.
+
+
+
+(** ** positional values *)
+Lemma get_pos_index n a : get_pos c n = Some a -> a_index a = Some n.
+Proof.
+  unfold get_pos. destruct (find _ (keymap c)) as [[k b]|] eqn:E; [|discriminate].
+  intros H. inversion H; subst. apply find_some in E. destruct E as [E F]. cbn [fst] in F.
+  destruct k as [x|x|x]; try discriminate. apply N.eqb_eq in F. subst x.
+  apply in_keymap in E. destruct E as [_ E]. unfold arg_keys in E. destruct (a_index a) as [k|].
+  - destruct E as [E|[]]. inversion E. reflexivity.
+  - exfalso. rewrite !in_app_iff in E. destruct E as [E|[E|[E|E]]].
+    + destruct (a_short a); [destruct E as [E|[]]; discriminate|destruct E].
+    + destruct (a_long a); [destruct E as [E|[]]; discriminate|destruct E].
+    + apply in_map_iff in E. destruct E as [y [E _]]. discriminate.
+    + apply in_map_iff in E. destruct E as [y [E _]]. discriminate.
+Qed.
+
+Definition pos_step_k (a : arg) (v : bytes) (rest : list bytes) (pos : N) (st : ps) : res loop_res :=
+  do st1 <- (if negb (match pending_arg_id (mt st) with Some i => beq i (a_id a) | None => false end)
+                || negb (a_multiple_values a)
+             then resolve_pending c st else ROk st);
+  do m1 <- expect 415 (pending_values_push (mt st1) (a_id a) (Some IIndex) false (Some v));
+  if negb (a_is_multiple a)
+  then parse_loop c rest (mkL PSValuesDone (pos + 1) true false) (st1 <| mt := m1 |>)
+  else parse_loop c rest (mkL (PSPos (a_id a)) pos true false) (st1 <| mt := m1 |>).
+
+Lemma pos_branch (v : bytes) (rest : list bytes) pst pos vaf st a :
+  match pst with PSOpt _ => False | _ => True end ->
+  (match pst with PSValuesDone => nosub c v = true | _ => True end) -> value_ok v = true -> get_pos c pos = Some a ->
+  parse_loop c (v :: rest) (mkL pst pos vaf false) st = pos_step_k a v rest pos st.
+Proof.
+  intros Hp Hn Hv Hg. destruct (value_ok_parts v Hv) as [E1 [E2 E3]].
+  destruct conv_parts as [_ [Hsp [_ [Hamp Hlow]]]].
+  pose proof (get_pos_in pos a Hg) as Ha.
+  destruct (conv_args a Ha) as [_ [_ [_ Hterm]]]. destruct (conv_args_pos a Ha) as [Hlast Htva].
+  unfold low_index_multiple in Hlow.
+  cbn [parse_loop]. cbn [l_trailing l_pst l_vaf l_pos].
+  assert (Hs : (if is_set s_sub_precedence c || match pst with PSValuesDone => true | _ => false end
+                then possible_subcommand c v vaf else None) = None).
+  { rewrite Hsp. cbn [orb]. destruct pst; try reflexivity. apply (nosub_if v vaf true Hn). }
+  rewrite Hs, E1, E2, E3. cbn [rbind]. cbn [l_trailing l_pst l_vaf l_pos].
+  unfold pos_step_k.
+  destruct pst as [|i|i]; [|contradiction|];
+    rewrite Hlow, Hamp, !andb_false_r; cbn [andb orb rbind]; rewrite Hg, Hlast, Htva; cbn [andb orb];
+    unfold check_terminator; rewrite Hterm; reflexivity.
+Qed.
+
+Lemma get_long_index n a : get_long c n = Some a -> a_index a = None.
+Proof.
+  unfold get_long. destruct (find _ (keymap c)) as [[k b]|] eqn:E; [|discriminate].
+  intros H. inversion H; subst. apply find_some in E. destruct E as [E F]. cbn [fst] in F.
+  destruct k as [x|x|x]; try discriminate.
+  apply in_keymap in E. destruct E as [_ E]. unfold arg_keys in E. destruct (a_index a) as [k|]; [|reflexivity].
+  destruct E as [E|[]]. discriminate.
+Qed.
+Lemma get_short_index ch a : get_short c ch = Some a -> a_index a = None.
+Proof.
+  unfold get_short. destruct (find _ (keymap c)) as [[k b]|] eqn:E; [|discriminate].
+  intros H. inversion H; subst. apply find_some in E. destruct E as [E F]. cbn [fst] in F.
+  destruct k as [x|x|x]; try discriminate.
+  apply in_keymap in E. destruct E as [_ E]. unfold arg_keys in E. destruct (a_index a) as [k|]; [|reflexivity].
+  destruct E as [E|[]]. discriminate.
+Qed.
+
+(** what may be pending between two items: unless a run of a multi-valued positional is open
+    ([PSPos]), the pending occurrence is an option's or a one-value positional's *)
+Definition pend_inv (pst : pstate_t) (st : ps) : Prop :=
+  match pst with
+  | PSPos _ => True
+  | _ => forall p b, mt_pending (mt st) = Some p -> find_arg c (p_id p) = Some b ->
+                     a_index b = None \/ a_multiple_values b = false
+  end.
+
+Lemma pos_first (v : bytes) (rest : list bytes) pst pos st a : get_pos c pos = Some a ->
+  match pst with PSPos _ => a_multiple_values a = false | _ => True end -> pend_inv pst st ->
+  pos_step_k a v rest pos st =
+  (do st1 <- sep_step c IIndex a [v] st;
+   parse_loop c rest (mkL (if a_is_multiple a then PSPos (a_id a) else PSValuesDone)
+                          (if a_is_multiple a then pos else pos + 1) true false) st1).
+Proof.
+  intros Hg Hp Hi. pose proof (get_pos_in pos a Hg) as Ha.
+  assert (Hc : negb (match pending_arg_id (mt st) with Some i => beq i (a_id a) | None => false end)
+               || negb (a_multiple_values a) = true).
+  { destruct (a_multiple_values a) eqn:Em; [|apply orb_true_r]. rewrite orb_false_r.
+    unfold pending_arg_id. destruct (mt_pending (mt st)) as [p|] eqn:Ep; [|reflexivity]. cbn [opt_map].
+    destruct (beq (p_id p) (a_id a)) eqn:Eb; [|reflexivity]. apply beq_eq in Eb. exfalso.
+    assert (F : find_arg c (p_id p) = Some a) by (rewrite Eb; apply (find_arg_self a Ha)).
+    destruct pst as [|i|i]; [| |discriminate Hp];
+      (destruct (Hi p a Ep F) as [H|H]; [rewrite (get_pos_index pos a Hg) in H; discriminate H|congruence]). }
+  unfold pos_step_k, sep_step. rewrite Hc.
+  destruct (resolve_pending c st) as [st1|e s|n] eqn:RP; cbn [rbind]; try reflexivity.
+  pose proof (resolve_pending_clears _ _ _ RP) as PN.
+  unfold pending_values_push. rewrite PN. cbn [p_id p_ident p_raw p_trailing_idx is_some].
+  rewrite beq_refl. cbn [negb andb ident_eqb expect rbind app].
+  assert (E : st1 <| mt := (mt st1) <| mt_pending := Some (mkPending (a_id a) (Some IIndex) [v] None) |> |>
+              = set_pending (a_id a) IIndex [v] st1) by reflexivity.
+  rewrite E. destruct (a_is_multiple a); reflexivity.
+Qed.
+
+Lemma pos_more (v : bytes) (rest : list bytes) pos st a (vs0 : list bytes) : a_multiple_values a = true ->
+  pos_step_k a v rest pos (set_pending (a_id a) IIndex vs0 st) =
+  parse_loop c rest (mkL (PSPos (a_id a)) pos true false) (set_pending (a_id a) IIndex (vs0 ++ [v]) st).
+Proof.
+  intros Hm. unfold pos_step_k.
+  assert (Hmul : a_is_multiple a = true) by (unfold a_is_multiple; rewrite Hm; reflexivity).
+  replace (pending_arg_id (mt (set_pending (a_id a) IIndex vs0 st))) with (Some (a_id a))
+    by (destruct st as [m ci fa fk]; destruct m; reflexivity).
+  rewrite beq_refl, Hm, Hmul. cbn [negb orb rbind].
+  assert (PV : pending_values_push (mt (set_pending (a_id a) IIndex vs0 st)) (a_id a) (Some IIndex) false (Some v) =
+               Some ((mt (set_pending (a_id a) IIndex vs0 st)) <| mt_pending := Some (mkPending (a_id a) (Some IIndex) (vs0 ++ [v]) None) |>)).
+  { unfold pending_values_push, set_pending. destruct st as [m ci fa fk]. destruct m. cbn. rewrite beq_refl. reflexivity. }
+  rewrite PV. cbn [expect rbind]. rewrite set_pending_again. reflexivity.
+Qed.
+
+Lemma loop_pos_values a (rest : list bytes) pos st : get_pos c pos = Some a -> a_multiple_values a = true ->
+  forall (vs vs0 : list bytes), forallb value_ok vs = true ->
+  parse_loop c (vs ++ rest) (mkL (PSPos (a_id a)) pos true false) (set_pending (a_id a) IIndex vs0 st) =
+  parse_loop c rest (mkL (PSPos (a_id a)) pos true false) (set_pending (a_id a) IIndex (vs0 ++ vs) st).
+Proof.
+  intros Hg Hm. induction vs as [|v vs IH]; intros vs0 Hv.
+  - cbn [app]. rewrite app_nil_r. reflexivity.
+  - cbn [forallb] in Hv. apply andb_prop in Hv. destruct Hv as [Hv Hvs]. cbn [app].
+    rewrite (pos_branch v (vs ++ rest) (PSPos (a_id a)) pos true _ a I I Hv Hg).
+    rewrite (pos_more v (vs ++ rest) pos st a vs0 Hm). rewrite (IH (vs0 ++ [v]) Hvs).
+    rewrite <- app_assoc. reflexivity.
+Qed.
+
+Lemma pos_ok_parts pst o (vs : list bytes) : pos_ok pst o vs = true ->
+  exists a v vs', o = Some a /\ vs = v :: vs' /\ forallb value_ok vs = true /\
+    (a_multiple_values a = true \/ vs' = []) /\
+    match pst with PSValuesDone => True | PSOpt _ => False | PSPos _ => a_multiple_values a = false end.
+Proof.
+  destruct o as [a|]; [|discriminate]. cbn [pos_ok]. intros H.
+  apply andb_prop in H. destruct H as [H H4]. apply andb_prop in H. destruct H as [H H3]. apply andb_prop in H. destruct H as [H1 H2].
+  destruct vs as [|v vs']; [discriminate|]. exists a, v, vs'. split; [reflexivity|]. split; [reflexivity|]. split; [exact H2|]. split.
+  - destruct (a_multiple_values a); [left; reflexivity|]. right. cbn [orb length] in H3.
+    destruct vs'; [reflexivity|discriminate].
+  - destruct pst; [exact I|discriminate|]. destruct (a_multiple_values a); [discriminate|reflexivity].
+Qed.
+
+Lemma loop_pos (vs : list bytes) (rest : list bytes) pst pos vaf st :
+  pend_inv pst st -> forallb (nosub c) (firstn 1 vs) = true -> pos_ok pst (get_pos c pos) vs = true ->
+  parse_loop c (vs ++ rest) (mkL pst pos vaf false) st =
+  (do st1 <- apply_item c pos (ItPos vs) st;
+   parse_loop c rest (mkL (item_pst c pos (ItPos vs)) (item_pos c pos (ItPos vs)) true false) st1).
+Proof.
+  intros Hi Hn Hok. destruct (pos_ok_parts _ _ _ Hok) as [a [v [vs' [Hg [-> [Hv [Hm Hp]]]]]]].
+  cbn [apply_item item_pst item_pos]. rewrite Hg.
+  cbn [firstn forallb] in Hn. apply andb_prop in Hn. destruct Hn as [Hn _].
+  cbn [forallb] in Hv. apply andb_prop in Hv. destruct Hv as [Hv Hvs]. cbn [app].
+  rewrite (pos_branch v (vs' ++ rest) pst pos vaf st a); [|destruct pst; tauto|destruct pst; tauto|exact Hv|exact Hg].
+  rewrite (pos_first v (vs' ++ rest) pst pos st a Hg); [|destruct pst; tauto|exact Hi].
+  destruct Hm as [Hm| ->].
+  - assert (Hmul : a_is_multiple a = true) by (unfold a_is_multiple; rewrite Hm; reflexivity).
+    rewrite Hmul. unfold sep_step. destruct (resolve_pending c st) as [st1|e s|n]; cbn [rbind]; try reflexivity.
+    rewrite (loop_pos_values a rest pos st1 Hg Hm vs' [v] Hvs). reflexivity.
+  - cbn [app]. reflexivity.
 Qed.
 
 
@@ -623,9 +797,9 @@ Proof.
   destruct (flag_step c IShort a st) as [s0|e s|n] eqn:E; cbn [rbind] in H; try discriminate.
   rewrite (IH _ _ H). apply (flag_step_fs _ _ _ _ E).
 Qed.
-Lemma apply_item_fs it st st' : apply_item c it st = ROk st' -> fs_skip st' = fs_skip st.
+Lemma apply_item_fs pos it st st' : apply_item c pos it st = ROk st' -> fs_skip st' = fs_skip st.
 Proof.
-  destruct it as [n|n v|n vs|fl t]; cbn [apply_item].
+  destruct it as [n|n v|n vs|fl t|vs]; cbn [apply_item].
   - destruct (get_long c n); [apply flag_step_fs|intros H; inversion H; reflexivity].
   - destruct (get_long c n); [apply att_step_fs|intros H; inversion H; reflexivity].
   - destruct (get_long c n); [apply sep_step_fs|intros H; inversion H; reflexivity].
@@ -636,9 +810,10 @@ Proof.
     + destruct (get_short c o); [apply (att_step_fs _ _ _ _ _ H)|inversion H; reflexivity].
     + destruct (get_short c o); [apply (att_step_fs _ _ _ _ _ H)|inversion H; reflexivity].
     + destruct (get_short c o); [apply (sep_step_fs _ _ _ _ _ H)|inversion H; reflexivity].
+  - destruct (get_pos c pos); [apply sep_step_fs|intros H; inversion H; reflexivity].
 Qed.
 
-Lemma wf_item_parts it : wf_item c it = true ->
+Lemma wf_item_parts pst pos it : wf_item c pst pos it = true ->
   (forall tok l, render_item it = tok :: l -> nosub c tok = true) /\
   match it with
   | ItLong n => name_ok n = true /\ is_flag (get_long c n) = true
@@ -646,64 +821,145 @@ Lemma wf_item_parts it : wf_item c it = true ->
   | ItLongSep n vs => name_ok n = true /\ sep_ok (get_long c n) vs = true
   | ItCluster fl t => forallb cl_flag fl = true /\ wf_tail c t = true /\
                       (is_nil fl && match t with TNone => true | _ => false end) = false
+  | ItPos vs => forallb (nosub c) (firstn 1 vs) = true /\ pos_ok pst (get_pos c pos) vs = true
   end.
 Proof.
   unfold wf_item. intros H. apply andb_prop in H. destruct H as [H1 H2]. split.
   - intros tok l E. rewrite E in H1. cbn [firstn forallb] in H1. apply andb_prop in H1. apply H1.
-  - destruct it as [n|n v|n vs|fl t].
+  - destruct it as [n|n v|n vs|fl t|vs].
     + apply andb_prop in H2. exact H2.
     + apply andb_prop in H2. exact H2.
     + apply andb_prop in H2. exact H2.
     + apply andb_prop in H2. destruct H2 as [H2 H4]. apply andb_prop in H2. destruct H2 as [H2 H3].
       split; [exact H2|]. split; [exact H3|]. destruct (is_nil fl && _); [discriminate|reflexivity].
+    + split; [exact H1|exact H2].
 Qed.
 
-Lemma item_pst_ok it : wf_item c it = true -> pst_ok (item_pst c it).
+Lemma item_pst_ok pst pos it : wf_item c pst pos it = true -> pst_ok (item_pst c pos it).
 Proof.
-  intros H. destruct (wf_item_parts it H) as [_ H2]. destruct it as [n|n v|n vs|fl t]; cbn [item_pst]; try exact I.
+  intros H. destruct (wf_item_parts pst pos it H) as [_ H2]. destruct it as [n|n v|n vs|fl t|vs]; cbn [item_pst]; try exact I.
   - destruct H2 as [_ H2]. destruct (sep_ok_parts _ _ H2) as [a [Hg _]]. rewrite Hg. apply opt_pst_ok. apply (get_long_in n a Hg).
   - destruct t as [|o v|o v|o vs]; try exact I. destruct H2 as [_ [H2 _]]. cbn [wf_tail] in H2.
     apply andb_prop in H2. destruct H2 as [_ H2]. destruct (sep_ok_parts _ _ H2) as [a [Hg _]]. rewrite Hg.
     apply opt_pst_ok. apply (get_short_in o a Hg).
+  - destruct (get_pos c pos) as [a|] eqn:Hg; [|exact I]. destruct (a_is_multiple a); [|exact I].
+    exists a. apply find_arg_self. apply (get_pos_in pos a Hg).
 Qed.
 
 Lemma loop_item it (rest : list bytes) pst pos vaf st :
-  wf_item c it = true -> pst_ok pst -> fs_skip st = 0 ->
+  wf_item c pst pos it = true -> pst_ok pst -> pend_inv pst st -> fs_skip st = 0 ->
   parse_loop c (render_item it ++ rest) (mkL pst pos vaf false) st =
-  (do st1 <- apply_item c it st; parse_loop c rest (mkL (item_pst c it) pos true false) st1).
+  (do st1 <- apply_item c pos it st;
+   parse_loop c rest (mkL (item_pst c pos it) (item_pos c pos it) true false) st1).
 Proof.
-  intros Hw Hp Hskip. destruct (wf_item_parts it Hw) as [Hn H2]. destruct it as [n|n v|n vs|fl t].
+  intros Hw Hp Hi Hskip. destruct (wf_item_parts pst pos it Hw) as [Hn H2]. destruct it as [n|n v|n vs|fl t|vs].
   - destruct H2 as [Hk Hf]. destruct (is_flag_parts _ Hf) as [a [Hg Htv]].
-    cbn [render_item app apply_item item_pst]. rewrite Hg.
+    cbn [render_item app apply_item item_pst item_pos]. rewrite Hg.
     apply loop_long_flag; try assumption. apply (Hn _ _ eq_refl).
   - destruct H2 as [Hk Hf]. destruct (is_opt_parts _ Hf) as [a [Hg Htv]].
-    cbn [render_item app apply_item item_pst]. rewrite Hg.
+    cbn [render_item app apply_item item_pst item_pos]. rewrite Hg.
     apply loop_long_eq; try assumption. apply (Hn _ _ eq_refl).
   - destruct H2 as [Hk Hf]. destruct (sep_ok_parts _ _ Hf) as [a [Hg _]].
-    cbn [render_item apply_item item_pst]. rewrite Hg. rewrite Hg in Hf.
+    cbn [render_item apply_item item_pst item_pos]. rewrite Hg. rewrite Hg in Hf.
     apply loop_long_sep; try assumption. apply (Hn _ _ eq_refl).
-  - destruct H2 as [Hfl [Hwt Hne]]. apply loop_cluster; try assumption.
+  - destruct H2 as [Hfl [Hwt Hne]]. cbn [item_pos]. apply loop_cluster; try assumption.
     apply (Hn _ _ (render_cluster fl t)).
+  - destruct H2 as [Hns Hok]. cbn [render_item]. apply loop_pos; assumption.
+Qed.
+
+(** the pending-buffer invariant is re-established by every item *)
+Lemma react_all_pending_none : forall os st st', react_all c os st = ROk st' -> os <> [] -> mt_pending (mt st') = None.
+Proof.
+  induction os as [|o os IH]; intros st st' H Hne; [contradiction|]. cbn [react_all] in H.
+  destruct (react c (o_ident o) (o_src o) (o_arg o) (o_raw o) (o_ti o) st) as [x|e s|n] eqn:E; cbn [rbind] in H; try discriminate.
+  destruct os as [|o' os']; [|apply (IH _ _ H); discriminate].
+  cbn [react_all] in H. inversion H; subst. unfold react in E.
+  destruct (resolve_pending c st) as [st1|e s|n] eqn:RP; cbn [rbind] in E; try discriminate.
+  destruct x as [sx px]. apply react_core_pending in E. cbn [fst]. rewrite E. apply (resolve_pending_clears _ _ _ RP).
+Qed.
+
+Lemma pend_inv_none pst st : mt_pending (mt st) = None -> pend_inv pst st.
+Proof. intros H. destruct pst; cbn [pend_inv]; try exact I; intros p b E; rewrite H in E; discriminate. Qed.
+
+Lemma step_pending_none idn a (raw : list bytes) st st' :
+  (do x <- react c (Some idn) SCmdLine a raw None st; ROk (fst x)) = ROk st' -> mt_pending (mt st') = None.
+Proof.
+  destruct (react c (Some idn) SCmdLine a raw None st) as [x|e s|n] eqn:E; cbn [rbind]; try discriminate.
+  intros H; inversion H; subst. unfold react in E.
+  destruct (resolve_pending c st) as [st1|e s|n] eqn:RP; cbn [rbind] in E; try discriminate.
+  destruct x as [sx px]. apply react_core_pending in E. cbn [fst]. rewrite E. apply (resolve_pending_clears _ _ _ RP).
+Qed.
+
+Lemma sep_step_inv idn a (vs : list bytes) st st' pst : In a (c_args c) ->
+  (a_index a = None \/ a_multiple_values a = false) ->
+  sep_step c idn a vs st = ROk st' -> pend_inv pst st'.
+Proof.
+  intros Ha Hor. unfold sep_step. destruct (resolve_pending c st) as [st1|e s|n]; cbn [rbind]; try discriminate.
+  intros H; inversion H; subst. destruct pst; cbn [pend_inv]; try exact I;
+    (intros p b Ep Fb;
+     assert (Ep' : Some (mkPending (a_id a) (Some idn) vs None) = Some p)
+       by (rewrite <- Ep; destruct st1 as [m ci fa fk]; destruct m; reflexivity);
+     inversion Ep'; subst p; cbn [p_id] in Fb; rewrite (find_arg_self a Ha) in Fb; inversion Fb; subst b; exact Hor).
+Qed.
+
+Lemma flags_step_pending fl st st' : forallb cl_flag fl = true -> fl <> [] ->
+  flags_step c fl st = ROk st' -> mt_pending (mt st') = None.
+Proof.
+  revert st. induction fl as [|ch fl IH]; intros st Hfl Hne H; [contradiction|].
+  cbn [forallb] in Hfl. apply andb_prop in Hfl. destruct Hfl as [Hch Hfl].
+  destruct (cl_flag_parts ch Hch) as [_ [_ [a [Hg _]]]]. cbn [flags_step] in H. rewrite Hg in H.
+  destruct (flag_step c IShort a st) as [s0|e s|n] eqn:E; cbn [rbind] in H; try discriminate.
+  destruct fl as [|ch' fl'].
+  - cbn [flags_step] in H. inversion H; subst. apply (step_pending_none _ _ _ _ _ E).
+  - apply (IH s0 Hfl); [discriminate|exact H].
+Qed.
+
+Lemma apply_item_inv pst pos it st st' : wf_item c pst pos it = true ->
+  apply_item c pos it st = ROk st' -> pend_inv (item_pst c pos it) st'.
+Proof.
+  intros Hw H. destruct (wf_item_parts pst pos it Hw) as [_ H2]. destruct it as [n|n v|n vs|fl t|vs]; cbn [apply_item] in H.
+  - destruct H2 as [_ Hf]. destruct (is_flag_parts _ Hf) as [a [Hg _]]. rewrite Hg in H.
+    apply pend_inv_none. apply (step_pending_none _ _ _ _ _ H).
+  - destruct H2 as [_ Hf]. destruct (is_opt_parts _ Hf) as [a [Hg _]]. rewrite Hg in H.
+    apply pend_inv_none. apply (step_pending_none _ _ _ _ _ H).
+  - destruct H2 as [_ Hf]. destruct (sep_ok_parts _ _ Hf) as [a [Hg _]]. rewrite Hg in H.
+    apply (sep_step_inv ILong a vs st st' _ (get_long_in n a Hg) (or_introl (get_long_index n a Hg)) H).
+  - destruct H2 as [Hfl [Hwt Hne]].
+    destruct (flags_step c fl st) as [s0|e s|k] eqn:E; cbn [rbind] in H; try discriminate.
+    destruct t as [|o v|o v|o vs]; cbn [tail_step wf_tail] in *.
+    + inversion H; subst. apply pend_inv_none. apply (flags_step_pending fl st st' Hfl); [|exact E].
+      intros ->. discriminate.
+    + apply andb_prop in Hwt. destruct Hwt as [Hwt _]. apply andb_prop in Hwt. destruct Hwt as [Hwt _]. apply andb_prop in Hwt. destruct Hwt as [_ Ho].
+      destruct (is_opt_parts _ Ho) as [a [Hg _]]. rewrite Hg in H. apply pend_inv_none. apply (step_pending_none _ _ _ _ _ H).
+    + apply andb_prop in Hwt. destruct Hwt as [_ Ho].
+      destruct (is_opt_parts _ Ho) as [a [Hg _]]. rewrite Hg in H. apply pend_inv_none. apply (step_pending_none _ _ _ _ _ H).
+    + apply andb_prop in Hwt. destruct Hwt as [_ Ho].
+      destruct (sep_ok_parts _ _ Ho) as [a [Hg _]]. rewrite Hg in H.
+      apply (sep_step_inv IShort a vs s0 st' _ (get_short_in o a Hg) (or_introl (get_short_index o a Hg)) H).
+  - destruct H2 as [_ Hok]. destruct (pos_ok_parts _ _ _ Hok) as [a [v [vs' [Hg _]]]]. rewrite Hg in H.
+    cbn [item_pst]. rewrite Hg. destruct (a_is_multiple a) eqn:Em; [exact I|].
+    apply (sep_step_inv IIndex a vs st st' _ (get_pos_in pos a Hg)); [|exact H].
+    right. unfold a_is_multiple in Em. destruct (a_multiple_values a); [discriminate|reflexivity].
 Qed.
 
 (** THE SIMULATION: the token loop on a rendered invocation is the invocation's meaning *)
 Theorem loop_items : forall its (rest : list bytes) pst pos vaf st,
-  wf_items c its = true -> pst_ok pst -> fs_skip st = 0 ->
+  wf_items c pst pos its = true -> pst_ok pst -> pend_inv pst st -> fs_skip st = 0 ->
   parse_loop c (render its ++ rest) (mkL pst pos vaf false) st =
-  (do st' <- apply_items c its st;
-   parse_loop c rest (mkL (items_pst c pst its) pos (vaf || negb (is_nil its)) false) st').
+  (do st' <- apply_items c pos its st;
+   parse_loop c rest (mkL (items_pst c pst pos its) (items_pos c pos its) (vaf || negb (is_nil its)) false) st').
 Proof.
-  induction its as [|it its IH]; intros rest pst pos vaf st Hw Hp Hskip.
-  - cbn [render flat_map app apply_items rbind items_pst is_nil negb]. rewrite orb_false_r. reflexivity.
-  - cbn [wf_items forallb] in Hw. apply andb_prop in Hw. destruct Hw as [Hw Hws].
+  induction its as [|it its IH]; intros rest pst pos vaf st Hw Hp Hi Hskip.
+  - cbn [render flat_map app apply_items rbind items_pst items_pos is_nil negb]. rewrite orb_false_r. reflexivity.
+  - cbn [wf_items] in Hw. apply andb_prop in Hw. destruct Hw as [Hw Hws].
     unfold render. cbn [flat_map]. rewrite <- app_assoc. fold (render its).
-    rewrite (loop_item it (render its ++ rest) pst pos vaf st Hw Hp Hskip).
-    cbn [apply_items items_pst is_nil negb]. rewrite orb_true_r.
-    destruct (apply_item c it st) as [st1|e s|n] eqn:E; cbn [rbind]; try reflexivity.
-    rewrite (IH rest (item_pst c it) pos true st1 Hws (item_pst_ok it Hw)); [reflexivity|].
-    rewrite (apply_item_fs _ _ _ E). exact Hskip.
+    rewrite (loop_item it (render its ++ rest) pst pos vaf st Hw Hp Hi Hskip).
+    cbn [apply_items items_pst items_pos is_nil negb]. rewrite orb_true_r.
+    destruct (apply_item c pos it st) as [st1|e s|n] eqn:E; cbn [rbind]; try reflexivity.
+    rewrite (IH rest (item_pst c pos it) (item_pos c pos it) true st1 Hws (item_pst_ok pst pos it Hw)
+               (apply_item_inv pst pos it st st1 Hw E)); [reflexivity|].
+    rewrite (apply_item_fs _ _ _ _ E). exact Hskip.
 Qed.
-
 
 (** * 3. flushing: the meaning as a fold of [react] over the occurrences *)
 Lemma rbind_assoc {A B C} (r : res A) (f : A -> res B) (g : B -> res C) :
@@ -797,11 +1053,11 @@ Proof.
   unfold flag_step. rewrite rbind_assoc. apply rbind_ext. intros x _. cbn [rbind]. apply IH. exact Hfl.
 Qed.
 
-Lemma flush_item {B} it st (K : ps -> res B) : wf_item c it = true ->
-  (do st1 <- apply_item c it st; do st2 <- resolve_pending c st1; K st2) =
-  (do st0 <- resolve_pending c st; do st2 <- react_all c (item_occs c it) st0; K st2).
+Lemma flush_item {B} pst pos it st (K : ps -> res B) : wf_item c pst pos it = true ->
+  (do st1 <- apply_item c pos it st; do st2 <- resolve_pending c st1; K st2) =
+  (do st0 <- resolve_pending c st; do st2 <- react_all c (item_occs c pos it) st0; K st2).
 Proof.
-  intros Hw. destruct (wf_item_parts it Hw) as [_ H2]. destruct it as [n|n v|n vs|fl t]; cbn [apply_item item_occs].
+  intros Hw. destruct (wf_item_parts pst pos it Hw) as [_ H2]. destruct it as [n|n v|n vs|fl t|vs]; cbn [apply_item item_occs].
   - destruct H2 as [_ Hf]. destruct (is_flag_parts _ Hf) as [a [Hg _]]. rewrite Hg.
     rewrite <- flush_react_all. cbn [react_all occ_of o_ident o_src o_arg o_raw o_ti]. reflexivity.
   - destruct H2 as [_ Hf]. destruct (is_opt_parts _ Hf) as [a [Hg _]]. rewrite Hg.
@@ -822,21 +1078,23 @@ Proof.
     + apply andb_prop in Hwt. destruct Hwt as [_ Ho].
       destruct (sep_ok_parts _ _ Ho) as [a [Hg _]]. rewrite Hg.
       exact (flush_react_all_sep IShort a vs (get_short_in o a Hg) (flags_occs c fl) st K).
+  - destruct H2 as [_ Hok]. destruct (pos_ok_parts _ _ _ Hok) as [a [v [vs' [Hg _]]]]. rewrite Hg.
+    exact (flush_react_all_sep IIndex a vs (get_pos_in pos a Hg) [] st K).
 Qed.
 
 (** THE MEANING: what is in the matcher once the line is flushed is the fold of [react] over the
     invocation's occurrences, whatever spelling each had *)
-Theorem flush_items : forall its st, wf_items c its = true ->
-  (do st' <- apply_items c its st; resolve_pending c st') =
-  (do st0 <- resolve_pending c st; react_all c (occs c its) st0).
+Theorem flush_items : forall its pst pos st, wf_items c pst pos its = true ->
+  (do st' <- apply_items c pos its st; resolve_pending c st') =
+  (do st0 <- resolve_pending c st; react_all c (occs c pos its) st0).
 Proof.
-  induction its as [|it its IH]; intros st Hw.
-  - cbn [apply_items occs flat_map react_all rbind]. symmetry. apply rbind_ret.
-  - cbn [wf_items forallb] in Hw. apply andb_prop in Hw. destruct Hw as [Hw Hws].
+  induction its as [|it its IH]; intros pst pos st Hw.
+  - cbn [apply_items occs react_all rbind]. symmetry. apply rbind_ret.
+  - cbn [wf_items] in Hw. apply andb_prop in Hw. destruct Hw as [Hw Hws].
     cbn [apply_items]. rewrite rbind_assoc.
-    etransitivity; [apply rbind_ext; intros st1 _; apply (IH st1 Hws)|].
-    rewrite (flush_item it st (fun st2 => react_all c (occs c its) st2) Hw).
-    apply rbind_ext. intros st0 _. unfold occs. cbn [flat_map]. rewrite react_all_app. reflexivity.
+    etransitivity; [apply rbind_ext; intros st1 _; apply (IH _ _ st1 Hws)|].
+    rewrite (flush_item pst pos it st (fun st2 => react_all c (occs c (item_pos c pos it) its) st2) Hw).
+    apply rbind_ext. intros st0 _. cbn [occs]. rewrite react_all_app. reflexivity.
 Qed.
 
 End Sim.
